@@ -683,11 +683,13 @@ type vC20Queryer struct {
 	err    error
 	called int
 	last   *dns.Msg
+	cut    *vC20CutPlan
 }
 
 func (q *vC20Queryer) Query(ctx context.Context, req *dns.Msg) (*dns.Msg, error) {
 	q.called++
 	q.last = req
+	q.cut.fold(ctx, 1)
 	if q.err != nil {
 		return nil, q.err
 	}
@@ -699,11 +701,13 @@ type vC20Next struct {
 	mark    int
 	calls   int
 	written *dns.Msg
+	cut     *vC20CutPlan
 }
 
 func (s *vC20Next) Name() string { return "vc20next" }
 func (s *vC20Next) ServeDNS(ctx context.Context, ch *middleware.Chain) {
 	s.calls++
+	s.cut.fold(ctx, 0)
 	if s.msg == nil {
 		ch.Cancel()
 		return
@@ -950,8 +954,139 @@ func vC20ClientIP(r *rand.Rand, cfg *compiled) net.IP {
 	return net.ParseIP("203.0.113.9")
 }
 
+// The request tree's bound (ResponseMeta cut), folded in the way the
+// production parties do it: the next handler (a cache hit folds the entry's
+// end of life before it writes), the Queryer (a sub-query's bound is folded
+// back into the tree before Query returns), or the caller's context (a nested
+// pipeline inherits the outer tree's ResponseMeta).  A bound "secs ahead" is
+// set to now + secs s + 500 ms at the moment it is folded, so that
+// uint64(time.Until(cut)/time.Second) read by synthesise is exactly secs as
+// long as the case takes less than half a second; ok() verifies that after the
+// run (the run is repeated / dropped as inconclusive otherwise), so no verdict
+// depends on the machine's speed.  A past bound reads as 0 whatever the clock.
+type vC20CutPlan struct {
+	// who folds: 0 next handler, 1 Queryer, 2 caller's context, 3 next handler
+	// AND Queryer (the earlier bound is [secs]; the other party folds secs+extra),
+	// 4 a ResponseMeta in the caller's context with no cut at all
+	route int
+	past  bool
+	secs  int64 // whole seconds ahead (ignored when past)
+	extra int64 // route 3: how much later the second bound lies (>= 1)
+	late  int   // route 3: which party folds the LATER bound (0 next, 1 Queryer)
+
+	// run state
+	folded bool      // some party folded the earliest bound
+	min    time.Time // the deadline that was folded for [secs]
+}
+
+func (c *vC20CutPlan) reset() {
+	if c != nil {
+		c.folded, c.min = false, time.Time{}
+	}
+}
+
+func (c *vC20CutPlan) deadline(extra int64) time.Time {
+	if c.past {
+		return time.Now().Add(-time.Duration(1+c.secs%5)*time.Second - time.Duration(extra)*time.Millisecond)
+	}
+	return time.Now().Add(time.Duration(c.secs+extra)*time.Second + 500*time.Millisecond)
+}
+
+// party: 0 next handler, 1 Queryer, 2 the caller (before the chain runs)
+func (c *vC20CutPlan) fold(ctx context.Context, party int) {
+	if c == nil || c.route == 4 {
+		return
+	}
+	meta := middleware.ResponseMetaFrom(ctx)
+	if meta == nil {
+		return
+	}
+	switch {
+	case c.route == party:
+		c.foldMin(meta)
+	case c.route == 3 && party <= 1:
+		if party == c.late {
+			if !c.past {
+				meta.BoundCut(c.deadline(c.extra))
+			} else {
+				meta.BoundCut(time.Now().Add(time.Duration(c.extra) * time.Second)) // ahead, while the other is past
+			}
+		} else {
+			c.foldMin(meta)
+		}
+	}
+}
+
+// a party that runs twice (a query re-sent over UDP) folds a fresh deadline
+// each time; ok() is judged against the earliest one
+func (c *vC20CutPlan) foldMin(meta *middleware.ResponseMeta) {
+	dl := c.deadline(0)
+	meta.BoundCut(dl)
+	if !c.folded {
+		c.min, c.folded = dl, true
+	}
+}
+
+// the bound as synthesise read it, valid once ok() holds
+func (c *vC20CutPlan) coq() string {
+	if c == nil || !c.folded {
+		return "None"
+	}
+	if c.past {
+		return "(Some 0%N)"
+	}
+	return fmt.Sprintf("(Some %d%%N)", c.secs)
+}
+
+func (c *vC20CutPlan) ok() bool {
+	if c == nil || !c.folded || c.past {
+		return true
+	}
+	return time.Until(c.min) > time.Duration(c.secs)*time.Second
+}
+
+func (c *vC20CutPlan) desc() string {
+	if c == nil {
+		return "no ResponseMeta cut (tree unbounded)"
+	}
+	who := []string{"next handler", "Queryer", "caller's context", "next handler and Queryer", "caller's context carries a ResponseMeta without a cut"}[c.route]
+	if c.route == 4 {
+		return who
+	}
+	if !c.folded {
+		return "planned via " + who + ", never folded (that party did not run)"
+	}
+	if c.past {
+		return "bound already past, folded by " + who
+	}
+	return fmt.Sprintf("bound %d s (+0.5 s) ahead, folded by %s", c.secs, who)
+}
+
+var vC20CutSecs = []int64{0, 1, 2, 5, 29, 30, 59, 60, 61, 299, 300, 599, 600, 601, 3599, 3600, 86400, 4294967295, 4294967296, 4294967301}
+
+func vC20RandCut(r *rand.Rand, wire bool) *vC20CutPlan {
+	if r.Intn(5) < 2 {
+		return nil
+	}
+	c := &vC20CutPlan{route: []int{0, 0, 0, 1, 1, 2, 3, 3, 4}[r.Intn(9)], extra: int64(1 + r.Intn(700)), late: r.Intn(2)}
+	if wire && (c.route == 2 || c.route == 4) {
+		c.route = 0 // over the socket there is no caller context to prepare
+	}
+	switch k := r.Intn(10); {
+	case k == 0:
+		c.past = true
+		c.secs = int64(r.Intn(100))
+	case k < 7:
+		c.secs = vC20CutSecs[r.Intn(len(vC20CutSecs))]
+	default:
+		c.secs = int64(r.Intn(700))
+	}
+	return c
+}
+
 // one handler scenario
 type vC20Scenario struct {
+	cut      *vC20CutPlan
 	cfg      *config.Config
 	req      *dns.Msg
 	hasOPT   bool
@@ -1087,11 +1222,38 @@ func vC20Gen(o *vC20Out, r *rand.Rand, emitCompile, wire bool) *vC20Scenario {
 		if sc.work && sc.down != nil && r.Intn(2) == 0 {
 			sc.down.Rcode = dns.RcodeServerFailure
 		}
+		sc.cut = vC20RandCut(r, wire)
 		return sc
 	}
 }
 
+// a scenario with a bound on the request tree is run on copies of its
+// messages, again (with fresh deadlines) when the clock check of the bound
+// failed, and dropped as inconclusive when that keeps happening
 func vC20Run(o *vC20Out, sc *vC20Scenario, passNontrivial bool) {
+	if sc.cut == nil {
+		vC20RunOnce(o, sc, passNontrivial)
+		return
+	}
+	for attempt := 0; attempt < 4; attempt++ {
+		c := *sc
+		c.req = sc.req.Copy()
+		if sc.down != nil {
+			c.down = sc.down.Copy()
+		}
+		if sc.aResp != nil {
+			c.aResp = sc.aResp.Copy()
+		}
+		c.cut.reset()
+		if vC20RunOnce(o, &c, passNontrivial) {
+			return
+		}
+	}
+	b, _ := json.Marshal(map[string]any{"k": "serve-slow-clock", "inconclusive": true, "desc": "the case took longer than the 0.5 s slack of its bound, four times: " + sc.cut.desc()})
+	o.f.Write(append(b, '\n'))
+}
+
+func vC20RunOnce(o *vC20Out, sc *vC20Scenario, passNontrivial bool) bool {
 	cfg := sc.cfg
 	d := New(cfg)
 	req := sc.req
@@ -1100,7 +1262,7 @@ func vC20Run(o *vC20Out, sc *vC20Scenario, passNontrivial bool) {
 		qname, qtype = req.Question[0].Name, req.Question[0].Qtype
 	}
 	down, mark := sc.down, sc.mark
-	qr := &vC20Queryer{}
+	qr := &vC20Queryer{cut: sc.cut}
 	alCoq := ""
 	switch sc.alKind {
 	case 0:
@@ -1135,8 +1297,13 @@ func vC20Run(o *vC20Out, sc *vC20Scenario, passNontrivial bool) {
 	}
 	downDesc := vC20Desc(down)
 
+	if sc.cut != nil && (sc.cut.route == 2 || sc.cut.route == 4) {
+		ctx = middleware.WithResponseMeta(ctx, &middleware.ResponseMeta{})
+		sc.cut.fold(ctx, 2)
+	}
+
 	// ---- run
-	next := &vC20Next{msg: down, mark: mark}
+	next := &vC20Next{msg: down, mark: mark, cut: sc.cut}
 	ch := middleware.NewChain([]middleware.Handler{d, next})
 	mw := &vC20Writer{Writer: mock.NewWriter("udp", "192.0.2.1:5300"), ip: sc.client, internal: sc.internal}
 	entry := "msg"
@@ -1153,6 +1320,9 @@ func vC20Run(o *vC20Out, sc *vC20Scenario, passNontrivial bool) {
 		ch.Reset(mw, req)
 	}
 	ch.Next(ctx)
+	if !sc.cut.ok() {
+		return false
+	}
 
 	// ---- observe
 	got := mw.Msg()
@@ -1214,11 +1384,15 @@ func vC20Run(o *vC20Out, sc *vC20Scenario, passNontrivial bool) {
 		"prefixes": cfg.DNS64.Prefixes, "clients": cfg.DNS64.ClientNetworks, "zones": cfg.DNS64.ExcludeZones,
 		"exclude_a": cfg.DNS64.ExcludeANetworks, "exclude_aaaa": cfg.DNS64.ExcludeAAAANetworks,
 		"query": fmt.Sprintf("%s %s class=%d rd=%v cd=%v opt=%v internal=%v client=%v entry=%s", qname, dns.TypeToString[qtype], qclass, req.RecursionDesired, req.CheckingDisabled, sc.hasOPT, sc.internal, sc.client, entry),
-		"down": downDesc, "mark": mark, "work_enforced": sc.work, "a_lookup": alCoq[:min(len(alCoq), 12)], "a_resp": vC20Desc(sc.aResp),
+		"down": downDesc, "mark": mark, "work_enforced": sc.work, "tree_bound": sc.cut.desc(), "a_lookup": alCoq[:min(len(alCoq), 12)], "a_resp": vC20Desc(sc.aResp),
 		"reply": vC20Desc(got), "reply_is_downstream_msg": got != nil && got == down, "queryer_called": qr.called, "next_called": next.calls,
 	}
-	o.emit(k, fmt.Sprintf("CaseServe %s %s %s %s %s %s %s", vC20Config(cfg), qCoq, downCoq, vC20Bool(sc.work), alCoq, vC20Bool(sc.wf), obs),
+	if sc.cut != nil && sc.cut.folded && k == "serve-synth" {
+		k += "-bounded"
+	}
+	o.emit(k, fmt.Sprintf("CaseServe %s %s %s %s %s %s %s %s", vC20Config(cfg), qCoq, downCoq, vC20Bool(sc.work), alCoq, sc.cut.coq(), vC20Bool(sc.wf), obs),
 		desc, k != "serve-pass" || passNontrivial, "", fkey)
+	return true
 }
 
 // thorough tier only: small scopes enumerated completely
